@@ -1,4 +1,6 @@
 import Driver.C06
+import Driver.C07
+import Driver.PumpDrv
 /-!
 `modeldrv`: one request per line on stdin (`<area> <op> <args…>`), one answer per line on stdout.
 -/
@@ -7,6 +9,8 @@ open Driver
 def dispatch (line : String) : String :=
   match line.trimAscii.toString.splitOn " " with
   | "c06" :: rest => C06.handle rest
+  | "c07" :: rest => C07.handle rest
+  | "pump" :: rest => PumpDrv.handle rest
   | _ => "bad-op"
 
 partial def loop (h : IO.FS.Stream) (out : IO.FS.Stream) : IO Unit := do
